@@ -535,7 +535,8 @@ def engine_hammer(prop, tier, seed, work):
             {"id": "hm%d_b1" % seed, "kind": "chan", "rounds": n // 2, "bound": 1}]
     ping = [{"id": "hm%d_ping" % seed, "kind": "ping", "rounds": n}]
     exe = [{"id": "hm%d_exec" % seed, "kind": "exec", "rounds": n}]
-    scns = {"C04": chan, "C03": ping, "C10": exe, "C02": chan[:1] + ping + exe}[prop]
+    wk = [{"id": "hm%d_wakeup" % seed, "kind": "wakeup", "rounds": n}]
+    scns = {"C04": chan, "C03": ping, "C10": exe, "C02": chan[:1] + ping + exe, "C11": wk}[prop]
     sp, tr = os.path.join(work, "hammer_scn.ndjson"), os.path.join(work, "hammer_trace.ndjson")
     with open(sp, "w") as f:
         for s in scns:
@@ -899,7 +900,7 @@ for _p in CONC_KINDS:
 ENGINES["C06"].append(engine_slotlist)
 for _p in ("C01", "C05", "C12"):
     ENGINES[_p].append(engine_tping)
-for _p in ("C04", "C02", "C03", "C10"):
+for _p in ("C04", "C02", "C03", "C10", "C11"):
     ENGINES[_p].append(engine_hammer)
 
 
